@@ -1,4 +1,5 @@
 SPECIFICATION MSpec
+CONSTANT UseCb = FALSE
 CONSTANT Points <- Pts2DThorough
 INVARIANTS MlComplete MlStatus MlSound MlNoNullDest MlIndexInRange ItBeforeFinish SingleLoss IsProduct
 CHECK_DEADLOCK FALSE
